@@ -9,7 +9,7 @@ import copy
 
 from ..deriv import Spec, Tag
 from ..pyabs import W, deep_eq, lift
-from .common import punct, numbers, to_int, DeltaOracle
+from .common import punct, numbers, to_int, DeltaOracle, Matcher
 
 
 def name_classes(lm):
@@ -161,10 +161,16 @@ def build(ctx, tier="quick", constraints=True, set_null=True, normalize_names=Fa
     if constraints:
         D = s.new()
 
+        # column names that are ordinary (non-reserved) SQL words: they are names here, never ordering / option words
+        sqlish = lm.custom("sqlword", ["first", "last", "nulls", "Value", "LEVEL", "role"], "PLAIN")
+
         def cols(start, kind, role_prefix, k):
             """( n1 [, n2] )"""
             x = s.edge(start, P["("], Tag(kind, False))
+            x0 = x
             x = s.edge(x, NM["a"], Tag(kind, False, role_prefix + "1"))
+            if kind in ("decl:PK", "decl:CPK", "decl:UQ") and not normalize_names:
+                s.e[x0].append((sqlish, Tag(kind, False, role_prefix + "1"), x))
             if k == 2:
                 x = s.edge(x, P[","], Tag(kind, False))
                 x = s.edge(x, NM["b"], Tag(kind, False, role_prefix + "2"))
@@ -188,6 +194,11 @@ def build(ctx, tier="quick", constraints=True, set_null=True, normalize_names=Fa
         e = s.words(sep, "decl:CHK", [("KW", "CHECK"), P["("], (NM["a"], "c1"), (gt, "op"), (N["NUM"], "c2"), P[")"]])
         s.eps(e, D)
         e = s.words(sep, "decl:CCHK", [("KW", "CONSTRAINT"), (cname, "cname"), ("KW", "CHECK"), P["("], (NM["a"], "c1"), (gt, "op"), (N["NUM"], "c2"), P[")"]])
+        s.eps(e, D)
+        fn = plain("fn", ["greatest", "coalesce", "LEAST", "Nvl", "my_func", "abs2"])
+        cmp_ = lm.custom("cmp", [">=", "<", ">", "<=", "<>"], "OP")
+        e = s.words(sep, "decl:CHKF", [("KW", "CHECK"), P["("], (fn, "f"), P["("], (NM["a"], "c1"), P[","], (NM["b"], "c3"), P[")"], (cmp_, "op"),
+                                       (N["NUM"], "c2"), P[")"]])
         s.eps(e, D)
         s.edge(D, P[","], Tag("sep", True), sep)
         s.edge(D, P[")"], Tag("end", True), end)
@@ -230,6 +241,30 @@ def ref_dict(roles, col_role="ref_col"):
         return roles.get(role)
     return {"table": roles["ref_table"], "schema": roles.get("ref_schema"),
             "on_delete": act("on_delete"), "on_update": act("on_update"), "deferrable_initially": None}
+
+
+class InOrder(Matcher):
+    """one string containing the given words in order"""
+
+    def __init__(self, words):
+        self.words = words
+
+    def match(self, actual):
+        def one(text, *ws):
+            if not isinstance(text, str):
+                return False
+            pos = 0
+            for w in ws:
+                i = text.find(str(w), pos)
+                if i < 0:
+                    return False
+                pos = i + len(str(w))
+            return True
+        return lift(one, actual, *self.words) is True
+
+    def __repr__(self):
+        from .common import show
+        return f"<text containing {[show(w) for w in self.words]} in order>"
 
 
 def strip_delims(v):
@@ -343,6 +378,13 @@ def _make_oracle(s):
         new["checks"] = list(old.get("checks") or []) + [{"constraint_name": None, "statement": st}]
         return new
 
+    def chkf(roles, old):
+        from .clauses import Holds
+        new = dict(old)
+        new["checks"] = list(old.get("checks") or []) + [{"constraint_name": None,
+                                                          "statement": InOrder([roles["f"], roles["c1"], roles["c3"], roles["op"], roles["c2"]])}]
+        return new
+
     def cchk(roles, old):
         st = lift(lambda a, o, n: f"{a} {o} {n}", roles["c1"], roles["op"], roles["c2"])
         entry = {"constraint_name": roles["cname"], "statement": st}
@@ -361,7 +403,7 @@ def _make_oracle(s):
         "opt:PK": upd(primary_key=True, nullable=False), "opt:UNIQUE": upd(unique=True),
         "opt:REF": inline_ref,
         "decl:PK": pk, "decl:UQ": uq, "decl:CPK": cpk, "decl:CUQ": cuq, "decl:FK": fk, "decl:CFK": cfk,
-        "decl:CHK": chk, "decl:CCHK": cchk,
+        "decl:CHK": chk, "decl:CCHK": cchk, "decl:CHKF": chkf,
     }
 
     def table_plus_column(old, colv):
